@@ -22,8 +22,6 @@ def splitLinesJsAux : Str → Str → List Str
 def splitLinesJs (s : Str) : List Str := splitLinesJsAux s []
 
 structure JState where
-  partialLine : Str := []
-  endsCr : Bool := false
   nl : Nat := 0
   nr : Nat := 0
   bom : Bool := false
@@ -66,34 +64,46 @@ def jsProcessLine (c : RCfg) (st : JState) (line : Str) : JState :=
   else if isComment c line then st
   else jsRecordLine c st line
 
-/-- `process_data_stream_chunk` on an already decoded chunk -/
-def jsChunk (c : RCfg) (st : JState) (decoded : Str) : JState :=
-  let startsLf := decoded.head? = some LF
-  let skipFirst := startsLf ∧ st.endsCr
-  let lines := splitLinesJs decoded
-  let lines := match lines with
-    | [] => [st.partialLine]
-    | l :: ls => (st.partialLine ++ l) :: ls
-  let st := { st with endsCr := decoded.getLast? = some CR, partialLine := lines.getLast?.getD [] }
+/-- The line-level part of `process_data_stream_chunk` on an already decoded chunk: given
+`partially_decoded_line` and `partially_decoded_line_ends_with_cr`, the complete lines handed to
+`process_line` (in order), and the new values of the two variables. -/
+def jsChunkLines (partialLine : Str) (endsCr : Bool) (decoded : Str) : List Str × Str × Bool :=
+  let skipFirst := decoded.head? = some LF ∧ endsCr
+  let lines := match splitLinesJs decoded with
+    | [] => [partialLine]
+    | l :: ls => (partialLine ++ l) :: ls
   let complete := lines.dropLast
-  let complete := if skipFirst then complete.drop 1 else complete
-  complete.foldl (jsProcessLine c) st
+  (if skipFirst then complete.drop 1 else complete, lines.getLast?.getD [], decoded.getLast? = some CR)
 
-/-- `process_data_stream_end` -/
-def jsEnd (c : RCfg) (st : JState) : JState :=
-  let st :=
-    if st.partialLine ≠ [] then jsProcessLine c { st with partialLine := [] } st.partialLine else st
+/-- all chunks of the stream: lines processed so far (in order), then the two variables -/
+def jsStreamLinesAux : List Str → Str → Bool → List Str × Str × Bool
+  | [], p, e => ([], p, e)
+  | d :: ds, p, e =>
+    let (ls, p', e') := jsChunkLines p e d
+    let (ls2, p2, e2) := jsStreamLinesAux ds p' e'
+    (ls ++ ls2, p2, e2)
+
+/-- every physical line the stream reader passes to `process_line`, `process_data_stream_end` included -/
+def jsStreamLines (pieces : List Str) : List Str :=
+  let (ls, p, _) := jsStreamLinesAux pieces [] false
+  if p ≠ [] then ls ++ [p] else ls
+
+/-- the lines `process_data_bulk` passes to `process_line` -/
+def jsBulkLines (text : Str) : List Str :=
+  let lines := splitLinesJs text
+  if lines.getLast? = some [] then lines.dropLast else lines
+
+/-- end of input (both paths): flush an unfinished multi-line record -/
+def jsFlush (c : RCfg) (st : JState) : JState :=
   if st.agg ≠ [] then jsRecordLine c st (joinLF st.agg.reverse) else st
+
+/-- the stream path: `process_data_stream_chunk` for every chunk, then `process_data_stream_end` -/
+def jsStream (c : RCfg) (pieces : List Str) : JState :=
+  jsFlush c ((jsStreamLines pieces).foldl (jsProcessLine c) {})
 
 /-- `process_data_bulk` on the decoded text -/
 def jsBulk (c : RCfg) (text : Str) : JState :=
-  let lines := splitLinesJs text
-  let lines := if lines.getLast? = some [] then lines.dropLast else lines
-  let st := lines.foldl (jsProcessLine c) {}
-  if st.agg ≠ [] then jsRecordLine c st (joinLF st.agg.reverse) else st
-
-def jsStream (c : RCfg) (pieces : List Str) : JState :=
-  jsEnd c (pieces.foldl (jsChunk c) {})
+  jsFlush c ((jsBulkLines text).foldl (jsProcessLine c) {})
 
 /-- JS `get_warnings` (order differs from Python; compared as a set) -/
 def jsWarnings (st : JState) : List ReadWarn :=
